@@ -631,8 +631,9 @@ def run(ctx):
             with open(fpath, 'wb') as f:
                 f.write(content.encode('utf-8'))
             r = impl_cli(['-T', fpath])
-            if r[0] != 'ok':
-                raise common.CheckError('process_commandline -T failed on %r: %r' % (content, r))
+            if r[0] != 'ok':    # the model says that reading a targets file never ends the run
+                add('false', {'op': 'file_lines', 'content': content, 'impl': repr(r)})
+                continue
             add('strs_eqb (file_lines %s) %s' % (cstr(content), clist(r[4], cstr)), {'op': 'file_lines', 'content': content, 'impl': r[4]},
                 ('file_lines', len(r[4]), '' in r[4], '\r' in content))
 
